@@ -273,6 +273,7 @@ def c11(tier, seed):
         seeds = range(reps(tier, 4, 600))
         jobs = [dict(VP_MODE='badargs', VP_FORMATS=f, VP_SEED=int(seed) * 1000 + s, VP_PLACE=PLACES[s % len(PLACES)]) for f in format_ids() for s in seeds]
         run_modes(obs, b, jobs, seed)
+        gnote = guided(obs, work, 'badargs get set legacy', tier, seed)
         config_variants(obs, work, [dict(VP_MODE='badargs', VP_FORMATS='all', VP_SEED=int(seed) * 1000 + 999, VP_PLACE=pl) for pl in (0, 1)], seed, ('ilp32', 'ndebug', 'unsigned-char', 'msan'))   # not short-enums: identifiers >= 256 are not representable in the parameter type there
         filt(obs, ['badargs:'])
         cov = dict(distinct_nontrivial=int(obs.stats.get('nontrivial', 0)) // len(seeds), repetitions_with_other_buffers=len(seeds),
@@ -280,7 +281,7 @@ def c11(tier, seed):
                         'valid k, ceil(m*2^32/d)+k for d in {2,3,4,5,6,8,12,16,24} (identifiers that wrap to a valid index when scaled), INT_MAX, INT_MIN, -1, random} on all-ones/random buffers (reader must return 0, writer must leave '
                         'the whole arena unchanged); null PDU through every generic/dedicated accessor and initialiser (no fault); '
                         'legacy wrappers over {null,valid} PDU x {null,valid} result x identifiers (rc == -EINVAL / 0, result slot '
-                        'untouched on error).  Every case is a distinct invalid-argument combination.')
+                        'untouched on error).  Every case is a distinct invalid-argument combination.' + gnote)
         return vlib.finish('C11', 'exploration', tier, seed, obs, cov, ASSUME_COMMON + [
             'scope: field readers/writers, initialisers and legacy wrappers (DESIGN.md section 5); builders and the VSS codec have no null contract'],
             t0, min_evals=10000)
